@@ -31,6 +31,9 @@ def _init():
     import atexit
     _APP = SchedApp()
     atexit.register(_APP.close)
+    # pool workers leave through os._exit: only multiprocessing's own finalizers run there
+    from multiprocessing import util as _mpu
+    _mpu.Finalize(None, _APP.close, exitpriority=10)
     _MODEL = Model()
 
 
@@ -414,6 +417,14 @@ def race_case(args):
                                           'replay': {'type': 'schedule', 'module': 'harness.conc', 'start_dump': _APP.dump(),
                                                      'ops': [sop], 'schedule': [], 'props': list(props)}})
                 return out
+        if profile.get('ensure_inventories', True):
+            # every provider of the start state has some inventory (writes spanning several providers need it)
+            d0 = _APP.dump()
+            have = {i[0] for i in d0['invs']}
+            for u, r in sorted(d0['rps'].items()):
+                if u not in have:
+                    ops.apply_real(_APP, {'op': 'inv_set', 'mv': 39, 'uuid': u, 'gen': r['gen'],
+                                          'invs': [ops.inv(rng.choice(['VCPU', 'DISK_GB']), rng.choice([4, 8, 16]))]})
         if profile.get('picker') == 'tree':
             # the custom classes / traits the deletion-versus-use scenarios name exist in the start state
             for n in gen.CUSTOM_RCS:
@@ -721,8 +732,17 @@ def pick_race(rng, g, v, profile):
     # runs out of attempts - shows only in this shape)
     writes = [o for o in out if o['op'] in ('alloc_put', 'alloc_post')]
     others = [o for o in out if o['op'] not in ('alloc_put', 'alloc_post') and o.get('uuid') in v.rps]
-    if len(writes) == 1 and others and rng.random() < profile.get('p_two_providers', 0.3):
+    if len(writes) == 1 and others and rng.random() < profile.get('p_two_providers', 0.5):
         tgt = others[0]['uuid']
+        if others[0]['op'].startswith('inv_') and rng.random() < 0.6 and 'rp_traits_set' in SCOPE:
+            # a competitor that only moves the generation (replacing the inventory would often make the write fail
+            # for another reason)
+            t = g.g_rp_traits_set(v)
+            t['uuid'] = tgt
+            out[out.index(others[0])] = t
+            others[0] = t
+        if others[0].get('gen') is not None or others[0]['op'] == 'rp_traits_set':
+            others[0]['gen'] = v.rps[tgt]['gen']
         k2 = [kk for kk in v.invs if kk[0] == tgt]
         k1 = [kk for kk in v.invs if kk[0] != tgt]
         if k1 and k2:
